@@ -9,7 +9,6 @@ import (
 	"os"
 	"path/filepath"
 	"runtime"
-	"time"
 
 	"verif/sim/core"
 
@@ -85,7 +84,7 @@ func main() {
 			os.Exit(2)
 		}
 		runtime.GC() // see core.RunWorker
-		core.StartWatchdog("", core.HangCPULimit(8*time.Second))
+		core.StartWatchdog("", core.HangCPULimit(core.ExecHangCPU))
 		core.WatchdogArm(raw)
 		if *prelude != "" {
 			pb, err := os.ReadFile(*prelude)
